@@ -59,10 +59,43 @@ func (p *Prog) lockOp(f *Func, call *ast.CallExpr) (*types.Var, string) {
 	default:
 		return nil, ""
 	}
+	// a read lock holds the mutex in shared mode only: it is tracked under a
+	// shadow variable, which protects reads but not writes (R-GUARD)
+	if full == "sync.RWMutex.RLock" || full == "sync.RWMutex.RUnlock" {
+		v, _ := p.lockVarOf(info, sel)
+		if v == nil {
+			return nil, ""
+		}
+		return p.readShadow(v), op
+	}
+	v, _ := p.lockVarOf(info, sel)
+	if v == nil {
+		return nil, ""
+	}
+	return v, op
+}
+
+// readShadow returns the variable that stands for "v held in read mode".
+func (p *Prog) readShadow(v *types.Var) *types.Var {
+	if p.rshadow == nil {
+		p.rshadow = map[*types.Var]*types.Var{}
+		p.rshadowOf = map[*types.Var]*types.Var{}
+	}
+	if sh := p.rshadow[v]; sh != nil {
+		return sh
+	}
+	sh := types.NewVar(v.Pos(), v.Pkg(), p.lockName(v)+"(read)", v.Type())
+	p.rshadow[v] = sh
+	p.rshadowOf[sh] = v
+	return sh
+}
+
+func (p *Prog) lockVarOf(info *types.Info, sel *ast.SelectorExpr) (*types.Var, string) {
 	s := info.Selections[sel]
 	if s == nil {
 		return nil, ""
 	}
+	op := ""
 	idx := s.Index()
 	if len(idx) > 1 {
 		t := s.Recv()
